@@ -17,9 +17,10 @@ const (
 	actIndexGC
 	actPrimaryGC
 	nActs
+	actPutFlush = nActs // compound: a writer that flushes itself (only in runs that fix the pair)
 )
 
-func runAct(s *Store, act int, key []byte, val []byte) {
+func runAct(s *Store, act int, key []byte, val []byte, scanFree bool) {
 	switch act {
 	case actPut:
 		s.Put(key, val)
@@ -31,6 +32,9 @@ func runAct(s *Store, act int, key []byte, val []byte) {
 		s.Remove(key)
 	case actFlush:
 		s.Flush()
+	case actPutFlush:
+		s.Put(key, val)
+		s.Flush()
 	case actSizes:
 		s.StorageSize()
 		s.IndexStorageSize()
@@ -39,7 +43,7 @@ func runAct(s *Store, act int, key []byte, val []byte) {
 	case actCacheSize:
 		s.SetFileCacheSize(1)
 	case actIndexGC:
-		s.index.VerifGC(context.Background(), true)
+		s.index.VerifGC(context.Background(), scanFree)
 	case actPrimaryGC:
 		s.index.Primary.(*mhprimary.MultihashPrimary).GC(context.Background(), 0)
 	}
@@ -52,6 +56,7 @@ func runAct(s *Store, act int, key []byte, val []byte) {
 func Verif_H16Races() {
 	dir := vrt.TempDir()
 	c := vcfg{bits: 8, primary: MultihashPrimary, gc: true, ifs: 1, pfs: 1}
+	c.sync = vrt.Param("synconflush", 0) != 0 // fsync as part of every flush
 	s, err := openCfg(dir, c)
 	vrt.Assert(err == nil, "open-no-error")
 	if err != nil {
@@ -63,20 +68,36 @@ func Verif_H16Races() {
 	m := newModel(len(keys))
 	// prefix 1 leaves everything flushed, prefix 4 ends with unflushed overwrites (so that a
 	// concurrent Flush has work to commit)
-	scriptedPrefix(s, c, keys, m, []int{1, 4}[vrt.Choose("prefix", 2)])
+	// prefix 9: several index files (the collectors only visit non-current files) and
+	// unflushed work on top
+	if fp := vrt.Param("fixprefix", -1); fp >= 0 {
+		scriptedPrefix(s, c, keys, m, fp)
+	} else {
+		scriptedPrefix(s, c, keys, m, []int{1, 4, 9}[vrt.Choose("prefix", 3)])
+	}
 	if vrt.Param("rated", 1) != 0 {
 		// a known flush rate and no burst allowance: writers take the back-pressure path
 		s.flushRate = 1
 		s.burstRate = 0
 	}
-	a := vrt.Choose("act-a", nActs)
-	b := a + vrt.Choose("act-b", nActs-a)
+	var a, b int
+	if pa, pb := vrt.Param("acta", -1), vrt.Param("actb", -1); pa >= 0 && pb >= 0 {
+		a, b = pa, pb // a run that fixes the pair (deeper preemption bound)
+	} else {
+		a = vrt.Choose("act-a", nActs)
+		b = a + vrt.Choose("act-b", nActs-a)
+	}
 	// two cycles of the same collector never run concurrently (each collector is one goroutine)
 	vrt.Assume(!(a == b && a >= actIndexGC))
 	if vrt.Param("gconly", 0) != 0 {
 		vrt.Assume(b >= actIndexGC) // only pairs in which one side is a collector
 	}
 	// same key or two keys of one bucket (locks are not per key; one structural bit)
+	// index GC with or without its unused-file scan (without it, files are reaped record by record)
+	scanFree := true
+	if b >= actIndexGC && (a == actIndexGC || b == actIndexGC) {
+		scanFree = vrt.Choose("scanfree", 2) == 1
+	}
 	ka, kb := keys[0], keys[vrt.Param("samekey", 0)^1]
 	va, vb := []byte{0xA1}, []byte{0xB2}
 	if vrt.Param("started", 1) != 0 {
@@ -86,11 +107,11 @@ func Verif_H16Races() {
 	da, db := make(chan struct{}), make(chan struct{})
 	vrt.SchedBegin()
 	go func() {
-		runAct(s, a, ka, va)
+		runAct(s, a, ka, va, scanFree)
 		close(da)
 	}()
 	go func() {
-		runAct(s, b, kb, vb)
+		runAct(s, b, kb, vb, scanFree)
 		close(db)
 	}()
 	<-da
